@@ -314,6 +314,8 @@ fn gen_form(r: &mut Rng, nkeys: i64) -> Form {
 }
 
 fn gen_case(r: &mut Rng) -> Case {
+  let hist_unused = ();
+  let _ = hist_unused;
   let hist = *r.pick(&[
     Hist::None,
     Hist::KeepAll,
@@ -328,14 +330,27 @@ fn gen_case(r: &mut Rng) -> Case {
   let nops = r.range(4, 26);
   let bare_ok = r.chance(1, 2); // half of the cases avoid the identity-less bare forms
   let mut next_sn = vec![1i64; 4];
+  // a sequence number held back: it arrives after its successor (out-of-order arrival; the
+  // sort by sequence number has to put the writer's samples back in order)
+  let mut late: Vec<Option<i64>> = vec![None; 4];
+  let reorder = r.chance(1, 3);
   let mut ops = Vec::new();
   let p_add = *r.pick(&[40u64, 55, 70]);
   let p_dispose = *r.pick(&[15u64, 30, 50]);
   for _ in 0..nops {
     if r.below(100) < p_add {
       let w = r.range(1, nwriters);
-      let sn = next_sn[w as usize];
-      next_sn[w as usize] += if r.chance(1, 8) { 2 } else { 1 };
+      let sn = if let Some(l) = late[w as usize].take() {
+        l
+      } else if reorder && r.chance(1, 4) {
+        late[w as usize] = Some(next_sn[w as usize]);
+        next_sn[w as usize] += 2;
+        next_sn[w as usize] - 1
+      } else {
+        let sn = next_sn[w as usize];
+        next_sn[w as usize] += if r.chance(1, 8) { 2 } else { 1 };
+        sn
+      };
       ops.push(Op::Add(w, sn, r.range(1, nkeys) as i32, r.below(100) >= p_dispose));
     } else {
       let mut f = gen_form(r, nkeys);
@@ -482,9 +497,11 @@ fn corpus() -> Vec<(&'static str, Case)> {
       rl: None,
       ops: vec![
         a(2, 5, 1, true),
+        a(1, 2, 1, true),
         a(1, 1, 1, true),
         a(2, 6, 2, true),
-        a(1, 2, 2, true),
+        a(1, 4, 2, true),
+        a(1, 3, 2, true),
         a(3, 1, 1, true),
         c(Form::Take(3, Cond::Any)),
         c(Form::Take(all, Cond::Any)),
@@ -528,6 +545,18 @@ fn tags_of(c: &Case, obs: &str) -> (Vec<String>, bool) {
   }
   t.push(format!("adds:{}", (adds / 4) * 4));
   t.push(format!("new-generation:{}", reborn));
+  let mut last = std::collections::BTreeMap::new();
+  let mut ooo = false;
+  for o in &c.ops {
+    if let Op::Add(w, sn, _, _) = o {
+      if let Some(p) = last.insert(*w, *sn) {
+        if p > *sn {
+          ooo = true;
+        }
+      }
+    }
+  }
+  t.push(format!("out-of-order-arrival:{}", ooo));
   let returned = obs.matches("(mkO ").count();
   t.push(format!("returned_samples:{}", (returned / 5) * 5));
   if obs.contains("RPanic") {
@@ -557,11 +586,22 @@ pub fn run(args: &Args) -> i32 {
         let mut r = Rng::for_case(args.seed, idx);
         (None, gen_case(&mut r))
       };
-      let uniq = format!("{}_{}", idx, Timestamp::now().to_ticks());
-      let obs = match catch_unwind(AssertUnwindSafe(|| run_case(&dp, &c, &uniq))) {
-        Ok(o) => o,
-        Err(_) => "[RPanic]".to_string(),
-      };
+      // entity creation talks to the participant's event loop over bounded channels; under load
+      // it can fail transiently: that is not an observation, retry
+      let mut obs = String::new();
+      for attempt in 0..8 {
+        let uniq = format!("{}_{}_{}", idx, attempt, Timestamp::now().to_ticks());
+        match catch_unwind(AssertUnwindSafe(|| run_case(&dp, &c, &uniq))) {
+          Ok(o) => {
+            obs = o;
+            break;
+          }
+          Err(_) => {
+            obs = "[RPanic]".to_string();
+            std::thread::sleep(std::time::Duration::from_millis(100 * (attempt + 1)));
+          }
+        }
+      }
       let (mut tags, nontrivial) = tags_of(&c, &obs);
       if let Some(n) = name {
         tags.push(format!("corpus:{}", n));
